@@ -13,7 +13,12 @@
             outcome   of the selected command's handler: [t |-> "ret", v |-> value] | [t |-> "raise", k |-> kind],
             scope     where in the handler the value is returned / the exception raised: "top" | "indent" (inside
                       `with io.indent(2):`) | "increment" (`with io.increment_indent(2):`) | "output" (`with
-                      io.output.indent(2):`) - an indentation scope must not change what the run amounts to]
+                      io.output.indent(2):`) - an indentation scope must not change what the run amounts to,
+            hroute    how the handler is configured: "object" | "factory" (a callable returning it) | "method" (another
+                      handler_method name);  exit: terminate_after_run - the status then arrives as sys.exit(status).
+                      Neither may change what the run amounts to]
+   A listener may also be [b |-> "noise"]: it writes to the I/O (leaving a style tag open) and raises the verbosity, and
+   otherwise passes.
    Values and exception kinds are names; what the model needs to know about them is in the tables below.
 
    P-layer (from the statement; over env and the observation o = [status, escaped, calls, reported, shows] only):
@@ -32,12 +37,15 @@
 EXTENDS Integers, Sequences
 
 \* ------------------------------------------------------------------ tables: values
+\* dec27 = Decimal("2.7"), dec0 = Decimal(0), b3 = b"3", bempty = b"", big = 2**70, intlike7 = an object whose __int__ gives 7,
+\* falsy9 = an object whose __bool__ is False (and whose __int__ would give 9), negzero = -0.0, babc = b"abc"
 Values == {"None", "False", "0", "0.0", "empty_str", "empty_list", "True", "-5", "1", "255", "300", "s3", "s0", "0.5",
-           "abc", "nan", "inf", "list"}
-Falsy(v) == v \in {"None", "False", "0", "0.0", "empty_str", "empty_list"}
-NotStatus(v) == v \in {"abc", "nan", "inf", "list"}              \* int(v) fails: counts as a failure of the handler
+           "abc", "nan", "inf", "list", "dec27", "dec0", "b3", "bempty", "big", "intlike7", "falsy9", "negzero", "babc"}
+Falsy(v) == v \in {"None", "False", "0", "0.0", "empty_str", "empty_list", "dec0", "bempty", "falsy9", "negzero"}
+NotStatus(v) == v \in {"abc", "nan", "inf", "list", "babc"}      \* int(v) fails: counts as a failure of the handler
 IntOf(v) == CASE v = "True" -> 1 [] v = "-5" -> -5 [] v = "1" -> 1 [] v = "255" -> 255 [] v = "300" -> 300
-              [] v = "s3" -> 3 [] v = "s0" -> 0 [] v = "0.5" -> 0 [] OTHER -> 0
+              [] v = "s3" -> 3 [] v = "s0" -> 0 [] v = "0.5" -> 0 [] v = "dec27" -> 2 [] v = "b3" -> 3
+              [] v = "big" -> 1000000 [] v = "intlike7" -> 7 [] OTHER -> 0
 Clamp(n) == IF n < 1 THEN 1 ELSE IF n > 255 THEN 255 ELSE n
 ConvClass(v) == CASE v = "inf" -> "OverflowError" [] v = "list" -> "TypeError" [] OTHER -> "ValueError"
 
@@ -57,7 +65,8 @@ ClassOf(k) == CASE k = "KeyboardInterrupt" -> "KeyboardInterrupt" [] IsLibrary(k
 
 \* ------------------------------------------------------------------ tables: command lines
 \* alpha <a> [--flag]   |   beta [--num N]  with sub-command  beta gamma <c>  (inherits --num)
-Lines == {"alpha_x", "alpha_x_flag", "beta", "beta_gamma_y", "beta_gamma_y_num", "alpha_missing", "nosuch"}
+\* "empty": no token at all - the plain application's default command `delta` runs
+Lines == {"alpha_x", "alpha_x_flag", "beta", "beta_gamma_y", "beta_gamma_y_num", "alpha_missing", "nosuch", "empty"}
 Pair(n, v) == <<n, v>>
 LineInfo(l) ==
   CASE l = "alpha_x"          -> [ok |-> TRUE, cmd |-> "alpha", args |-> <<Pair("a", "x")>>, opts |-> <<Pair("flag", "False")>>]
@@ -65,8 +74,9 @@ LineInfo(l) ==
     [] l = "beta"             -> [ok |-> TRUE, cmd |-> "beta", args |-> <<>>, opts |-> <<Pair("num", "None")>>]
     [] l = "beta_gamma_y"     -> [ok |-> TRUE, cmd |-> "beta gamma", args |-> <<Pair("c", "y")>>, opts |-> <<Pair("num", "None")>>]
     [] l = "beta_gamma_y_num" -> [ok |-> TRUE, cmd |-> "beta gamma", args |-> <<Pair("c", "y")>>, opts |-> <<Pair("num", "7")>>]
+    [] l = "empty"            -> [ok |-> TRUE, cmd |-> "delta", args |-> <<>>, opts |-> <<>>]
     [] OTHER                  -> [ok |-> FALSE, cmd |-> "", args |-> <<>>, opts |-> <<>>]    \* required argument missing / unknown command
-LineOK(env) == LineInfo(env.line).ok /\ ~(env.line = "nosuch" /\ env.app = "default")   \* (never combined: the default app has a default command)
+LineOK(env) == LineInfo(env.line).ok /\ ~(env.line \in {"nosuch", "empty"} /\ env.app = "default")   \* (never combined: the default app has a default command)
 ExpectedCall(env) == [cmd |-> LineInfo(env.line).cmd, args |-> LineInfo(env.line).args, opts |-> LineInfo(env.line).opts]
 
 Ret(v) == [t |-> "ret", v |-> v, k |-> "", src |-> ""]
@@ -109,7 +119,8 @@ NoExc == [k |-> "", cls |-> "", lib |-> FALSE, src |-> ""]
 Exc(k, src) == [k |-> k, cls |-> ClassOf(k), lib |-> IsLibrary(k), src |-> src]
 
 Start(env) == [env |-> env, phase |-> "start", li |-> 1, handled |-> FALSE, hstatus |-> "None", ret |-> "None",
-               exc |-> NoExc, calls |-> <<>>, status |-> -1, escaped |-> "", reported |-> FALSE, simple |-> FALSE]
+               exc |-> NoExc, calls |-> <<>>, status |-> -1, escaped |-> "", reported |-> FALSE, simple |-> FALSE,
+               noisy |-> FALSE]                              \* noisy: a listener wrote to the I/O itself
 
 Step(st) ==
   LET env == st.env IN
@@ -126,6 +137,7 @@ Step(st) ==
          ELSE LET ls == env.listeners[st.li] IN
               IF ls.b = "raise" THEN [st EXCEPT !.phase = "caught", !.exc = Exc(ls.k, ListenerSrc(st.li))]
               ELSE IF ls.b = "handle" THEN [st EXCEPT !.li = @ + 1, !.handled = TRUE, !.hstatus = ls.v]
+              ELSE IF ls.b = "noise" THEN [st EXCEPT !.li = @ + 1, !.noisy = TRUE]
               ELSE [st EXCEPT !.li = @ + 1]
     [] st.phase = "preHandled" ->                                                                      \* InvokeHandler
          IF st.handled THEN [st EXCEPT !.phase = "handled", !.ret = st.hstatus]
